@@ -79,7 +79,7 @@ def main():
                 caught.setdefault(c, []).append({"seed": int(seed), "exit": rc, "violations": len(viol), "mechanisms": mechs[:6], "wall_s": round(time.time() - t0)})
         res["checks"] = caught
         res["caught_by"] = sorted(c for c, runs in caught.items() if any(r["exit"] == 1 and r["violations"] for r in runs))
-        dst = os.path.join(VERIF, "seeded", a.sid)
+        dst = os.path.join(os.environ.get("SEED_DEST", VERIF), "seeded", a.sid)
         os.makedirs(dst, exist_ok=True)
         shutil.copy(patch, os.path.join(dst, "patch.diff"))
         shutil.copy(demo, os.path.join(dst, "demo.py"))
